@@ -214,6 +214,12 @@ pub fn run_docprop(ctx: &mut Ctx, p: DocProp) {
         }
         let b = build_case(None, &bytes, &cfg, &opts, &mut sh.intern, extra);
         hist.add("corpus");
+        if ctx.prop == "C05" {
+            // the repetition oracle needs only the bytes
+            if let Some(f) = p.extra {
+                fails.extend(f(ctx, &[], &bytes, &b, &mut rng, &mut hist));
+            }
+        }
         sh.push(b.term, b.descr);
         evaluations += 1;
     }
@@ -357,8 +363,18 @@ pub fn run_docprop(ctx: &mut Ctx, p: DocProp) {
         }
         cases.push((docs, kind));
     }
+    let mut case_no = 0usize;
     for (docs, kind) in cases {
-        let bytes = serialise(&docs, &mut rng);
+        case_no += 1;
+        // a tenth of the cases of the tree-level checks are read with trim_text: the serialisation then
+        // writes no blank text (the reader would drop it, the DOM would not)
+        let trim = matches!(ctx.prop.as_str(), "C03" | "C01" | "C06") && case_no % 10 == 7 && kind != "fixed-very-deep";
+        let cfg = if trim { RCfg { trim_text: true, ..cfg } } else { cfg };
+        let docs: Vec<Vec<Node>> = if trim { docs.into_iter().map(|d| d.into_iter().filter(|n| !matches!(n, Node::Text)).collect()).collect() } else { docs };
+        let bytes = if trim { serialise_no_blank(&docs, &mut rng) } else { serialise(&docs, &mut rng) };
+        if trim {
+            hist.add("reader:trim_text");
+        }
         let mut opts = (p.opts)(&mut rng);
         if kind == "fixed-very-deep" {
             opts.truncate(1);
@@ -395,7 +411,7 @@ pub fn run_docprop(ctx: &mut Ctx, p: DocProp) {
     }
     let files = sh.finish();
     ctx.shards.extend(files);
-    if matches!(ctx.prop.as_str(), "C03" | "C06" | "C01") {
+    if matches!(ctx.prop.as_str(), "C03" | "C06" | "C01" | "C04") {
         evaluations += crate::ops::run_mixed(ctx, &mut hist);
     }
     {
@@ -711,7 +727,45 @@ fn c06_extra(_ctx: &mut Ctx, docs: &[Vec<Node>], bytes: &[Vec<u8>], b: &Built, r
             fail("failed-extension", "extension panicked".into(), &v, &r);
         }
     }
+    // (f) the stream carrying the extension breaks with an I/O error part-way: an error, not a
+    // partial result (the earlier documents are read from a healthy stream)
+    if bytes.len() >= 2 && rng.chance(1, 3) {
+        let last = bytes.last().unwrap();
+        if last.len() > 8 {
+            let cut = rng.range(1, last.len() - 1);
+            let bcfg = RCfg { fail_after: cut, bufcap: *rng.pick(&[1usize, 3, 16, 64]), ..cfg };
+            let r = catch_io_extension(&bytes[..bytes.len() - 1], last, &cfg, &bcfg);
+            hist.add("c06:io-error-in-extension");
+            if let Some(what) = r {
+                fail("failed-extension", what, bytes, &ImplResult::Other("see what".into()));
+            }
+        }
+    }
     fails
+}
+/// parse all but the last document normally, then extend from a stream that breaks: must be Err
+fn catch_io_extension(first: &[Vec<u8>], last: &[u8], cfg: &RCfg, bcfg: &RCfg) -> Option<String> {
+    let r = std::panic::catch_unwind(std::panic::AssertUnwindSafe(|| {
+        let mut cur = None;
+        for d in first {
+            match parse_one(d, cfg, cur.take()) {
+                Ok(e) => cur = Some(e),
+                Err(_) => return None, // not an accepted prefix: nothing to check
+            }
+        }
+        let root = cur?;
+        // does the recorder see an error on the broken stream? (it may break inside trailing white space)
+        let mut tab = ErrTab::default();
+        let sees_err = record(last, bcfg, &mut tab).iter().any(|e| matches!(e, Ev::Err(..)));
+        match parse_one(last, bcfg, Some(root)) {
+            Ok(_) if sees_err => Some(format!("the stream of the extension broke with an I/O error after {} bytes, extend_struct returned Ok", bcfg.fail_after)),
+            _ => None,
+        }
+    }));
+    match r {
+        Ok(x) => x,
+        Err(_) => Some("extend_struct panicked on a stream that breaks with an I/O error".into()),
+    }
 }
 fn root_name(d: &[Node]) -> Option<String> {
     d.iter().find_map(|n| match n {
